@@ -46,6 +46,7 @@ type stats struct {
 	MapRanges   int      `json:"map_ranges"`
 	SyncTypes   int      `json:"sync_types"`
 	TimeCalls   int      `json:"time_calls"`
+	ChanOps     int      `json:"chan_ops"`
 	Unsupported []string `json:"unsupported"`
 	SiteFiles   []string `json:"site_files"`
 }
@@ -246,6 +247,98 @@ func rewriteFile(p *packages.Package, f *ast.File, fe *fileEdits, st *stats, rel
 			st.Yields++
 		}
 	}
+	inSelectComm := map[ast.Node]bool{} // send statements / receive expressions that are select communications
+	recv2 := map[*ast.UnaryExpr]bool{}  // receives in `v, ok := <-ch` position
+	suppress := map[*ast.ChanType]bool{}
+	selN := 0
+	src := func(n ast.Node) string { return string(fe.src[off(n.Pos()):off(n.End())]) }
+	simpleChanExpr := func(e ast.Expr) bool {
+		switch x := ast.Unparen(e).(type) {
+		case *ast.Ident:
+			return true
+		case *ast.SelectorExpr:
+			_, ok := x.X.(*ast.Ident)
+			return ok
+		}
+		return false
+	}
+	// select { case v := <-a: A; case b <- x: B; default: D }   ->
+	// switch _zs1 := zzsim.Select(true, a.RecvCase(&_zr1_0), b.SendCase(x)); _zs1.I { case 0: v := _zr1_0.V; A; case 1: B; default: D }
+	// with `var _zr1_0 zzsim.SelSlot[T]` declared in a block opened just before.
+	rewriteSelect := func(n *ast.SelectStmt) {
+		selN++
+		id := selN
+		var decls, cases []string
+		hasDefault := false
+		for ci, cl := range n.Body.List {
+			cc := cl.(*ast.CommClause)
+			if cc.Comm == nil {
+				hasDefault = true
+				continue // `default:` is kept as the switch's default
+			}
+			head := ""
+			switch c := cc.Comm.(type) {
+			case *ast.SendStmt:
+				inSelectComm[c] = true
+				if !simpleChanExpr(c.Chan) {
+					unsupported(c.Pos(), "select send on a complex channel expression")
+					return
+				}
+				cases = append(cases, fmt.Sprintf("%s.SendCase(%s)", src(c.Chan), src(c.Value)))
+			case *ast.ExprStmt:
+				u, ok := ast.Unparen(c.X).(*ast.UnaryExpr)
+				if !ok || u.Op != token.ARROW || !simpleChanExpr(u.X) {
+					unsupported(c.Pos(), "select clause that is not a plain receive")
+					return
+				}
+				inSelectComm[u] = true
+				elem, _ := chanOf(p.TypesInfo.TypeOf(u.X))
+				slot := fmt.Sprintf("_zr%d_%d", id, ci)
+				decls = append(decls, fmt.Sprintf("var %s zzsim.SelSlot[%s]", slot, types.TypeString(elem, qualifier(p))))
+				cases = append(cases, fmt.Sprintf("%s.RecvCase(&%s)", src(u.X), slot))
+			case *ast.AssignStmt:
+				u, ok := ast.Unparen(c.Rhs[0]).(*ast.UnaryExpr)
+				if !ok || u.Op != token.ARROW || !simpleChanExpr(u.X) || len(c.Rhs) != 1 || len(c.Lhs) > 2 {
+					unsupported(c.Pos(), "select clause that is not a plain receive assignment")
+					return
+				}
+				inSelectComm[u] = true
+				delete(recv2, u)
+				elem, _ := chanOf(p.TypesInfo.TypeOf(u.X))
+				slot := fmt.Sprintf("_zr%d_%d", id, ci)
+				decls = append(decls, fmt.Sprintf("var %s zzsim.SelSlot[%s]", slot, types.TypeString(elem, qualifier(p))))
+				cases = append(cases, fmt.Sprintf("%s.RecvCase(&%s)", src(u.X), slot))
+				tok := c.Tok.String()
+				if len(c.Lhs) == 1 {
+					head = fmt.Sprintf("%s %s %s.V; _ = %s;", src(c.Lhs[0]), tok, slot, blankSafe(src(c.Lhs[0])))
+				} else {
+					head = fmt.Sprintf("%s, %s %s %s.V, %s.OK; _, _ = %s, %s;", src(c.Lhs[0]), src(c.Lhs[1]), tok, slot, slot, blankSafe(src(c.Lhs[0])), blankSafe(src(c.Lhs[1])))
+				}
+			default:
+				unsupported(cc.Pos(), "select clause of unknown form")
+				return
+			}
+			// `case <comm>:`  ->  `case <k>: <head>`
+			k := len(cases) - 1
+			fe.add(off(cc.Case)+len("case"), off(cc.Colon)-off(cc.Case)-len("case"), fmt.Sprintf(" %d", k))
+			if head != "" {
+				fe.add(off(cc.Colon)+1, 0, " "+head)
+			}
+		}
+		sel := fmt.Sprintf("_zs%d", id)
+		open := "{ " + strings.Join(decls, "; ")
+		if len(decls) > 0 {
+			open += "; "
+		}
+		open += fmt.Sprintf("switch %s := zzsim.Select(%v", sel, hasDefault)
+		for _, c := range cases {
+			open += ", " + c
+		}
+		open += fmt.Sprintf("); %s.I ", sel)
+		fe.add(off(n.Select), len("select"), open)
+		fe.add(off(n.Body.Rbrace)+1, 0, " }")
+		st.ChanOps++
+	}
 	ast.Inspect(f, func(n ast.Node) bool {
 		switch n := n.(type) {
 		case *ast.BlockStmt:
@@ -255,14 +348,74 @@ func rewriteFile(p *packages.Package, f *ast.File, fe *fileEdits, st *stats, rel
 		case *ast.CommClause:
 			yieldBefore(n.Body)
 		case *ast.SelectStmt:
-			unsupported(n.Pos(), "select statement")
+			rewriteSelect(n)
 		case *ast.ChanType:
-			unsupported(n.Pos(), "channel type")
+			// chan T, <-chan T, chan<- T  ->  *zzsim.Chan[T]
+			if suppress[n] {
+				break
+			}
+			fe.add(off(n.Pos()), off(n.Value.Pos())-off(n.Pos()), "*zzsim.Chan[")
+			fe.add(off(n.Value.End()), 0, "]")
+			st.ChanOps++
 		case *ast.SendStmt:
-			unsupported(n.Pos(), "channel send")
+			if !inSelectComm[n] {
+				// ch <- v  ->  ch.Send(v)
+				fe.add(off(n.Chan.End()), off(n.Value.Pos())-off(n.Chan.End()), ".Send(")
+				fe.add(off(n.Value.End()), 0, ")")
+				st.ChanOps++
+			}
 		case *ast.UnaryExpr:
-			if n.Op == token.ARROW {
-				unsupported(n.Pos(), "channel receive")
+			if n.Op == token.ARROW && !inSelectComm[n] {
+				// <-ch  ->  ch.Recv()   (v, ok := <-ch is handled at the assignment)
+				if recv2[n] {
+					fe.add(off(n.OpPos), off(n.X.Pos())-off(n.OpPos), "")
+					fe.add(off(n.X.End()), 0, ".Recv2()")
+				} else {
+					fe.add(off(n.OpPos), off(n.X.Pos())-off(n.OpPos), "")
+					fe.add(off(n.X.End()), 0, ".Recv()")
+				}
+				st.ChanOps++
+			}
+		case *ast.AssignStmt:
+			if len(n.Lhs) == 2 && len(n.Rhs) == 1 {
+				if u, ok := ast.Unparen(n.Rhs[0]).(*ast.UnaryExpr); ok && u.Op == token.ARROW {
+					recv2[u] = true
+				}
+			}
+		case *ast.ValueSpec:
+			if len(n.Names) == 2 && len(n.Values) == 1 {
+				if u, ok := ast.Unparen(n.Values[0]).(*ast.UnaryExpr); ok && u.Op == token.ARROW {
+					recv2[u] = true
+				}
+			}
+		case *ast.CallExpr:
+			if id, ok := n.Fun.(*ast.Ident); ok && len(n.Args) >= 1 {
+				if _, isBuiltin := p.TypesInfo.Uses[id].(*types.Builtin); isBuiltin {
+					at := p.TypesInfo.TypeOf(n.Args[0])
+					_, isChan := chanOf(at)
+					switch {
+					case id.Name == "make" && isChan:
+						// make(chan T)  ->  zzsim.MakeChan[T](0) ; make(chan T, n) -> zzsim.MakeChan[T](n)
+						ct, ok := n.Args[0].(*ast.ChanType)
+						if !ok {
+							unsupported(n.Pos(), "make of a named channel type")
+							break
+						}
+						fe.add(off(n.Pos()), off(ct.Value.Pos())-off(n.Pos()), "zzsim.MakeChan[")
+						suppress[ct] = true
+						if len(n.Args) == 1 {
+							fe.add(off(ct.Value.End()), off(n.Rparen)-off(ct.Value.End()), "](0")
+						} else {
+							fe.add(off(ct.Value.End()), off(n.Args[1].Pos())-off(ct.Value.End()), "](")
+						}
+						st.ChanOps++
+					case (id.Name == "close" || id.Name == "len" || id.Name == "cap") && isChan:
+						m := map[string]string{"close": "Close", "len": "Len", "cap": "Cap"}[id.Name]
+						fe.add(off(n.Pos()), off(n.Args[0].Pos())-off(n.Pos()), "")
+						fe.add(off(n.Args[0].End()), off(n.Rparen)-off(n.Args[0].End()), "."+m+"(")
+						st.ChanOps++
+					}
+				}
 			}
 		case *ast.GoStmt:
 			sig, _ := p.TypesInfo.TypeOf(n.Call.Fun).Underlying().(*types.Signature)
@@ -294,7 +447,9 @@ func rewriteFile(p *packages.Package, f *ast.File, fe *fileEdits, st *stats, rel
 					fe.add(off(n.X.End()), 0, ")")
 					st.MapRanges++
 				case *types.Chan:
-					unsupported(n.Pos(), "range over channel")
+					// for v := range ch  ->  for v := range ch.Iter()
+					fe.add(off(n.X.End()), 0, ".Iter()")
+					st.ChanOps++
 				case *types.Pointer:
 					_ = u
 				}
@@ -349,4 +504,35 @@ func modulePathOf(p *packages.Package) (string, bool) {
 		}
 	}
 	return "", false
+}
+
+
+// chanOf reports the element type if t's underlying type is a channel.
+func chanOf(t types.Type) (types.Type, bool) {
+	if t == nil {
+		return nil, false
+	}
+	if c, ok := t.Underlying().(*types.Chan); ok {
+		return c.Elem(), true
+	}
+	return nil, false
+}
+
+// qualifier prints types relative to the package being rewritten.
+func qualifier(p *packages.Package) types.Qualifier {
+	return func(other *types.Package) string {
+		if other == p.Types {
+			return ""
+		}
+		return other.Name()
+	}
+}
+
+// blankSafe returns an expression that may appear on the right of `_ =` for
+// the given left-hand side text (the blank identifier itself may not).
+func blankSafe(lhs string) string {
+	if strings.TrimSpace(lhs) == "_" {
+		return "0"
+	}
+	return lhs
 }
